@@ -446,7 +446,7 @@ pub fn check_case(c: &Case) -> Result<CaseInfo, Failure> {
 
 pub fn run(ctx: &Ctx, started: Instant) -> i32 {
     let matrix = deviation_matrix();
-    let per_shard = ctx.tier.pick(2_000u32, 50_000);
+    let per_shard = ctx.tier.pick(8_000u32, 100_000);
     let stats = par_shards(WORKERS, |shard| {
         let mut st = Stats::default();
         let mine: Vec<Case> = matrix.iter().enumerate().filter(|(i, _)| i % WORKERS == shard).map(|(_, c)| c.clone()).collect();
